@@ -703,3 +703,49 @@ func VRingOps(n int, usingTree bool, ops [][]int64) (edgeRec []int, recs []VRing
 	}
 	return edgeRec, recs, c.succeeded, -1, -1
 }
+
+// VAelPtrOps runs the real re-linking functions of the active-edge list on n synthetic edges, all unlinked
+// at first. ops: {0,e} insertLeftEdge into an empty list, {1,e} insertLeftEdge of an edge left of the
+// current first one (skipped when the list is not / is empty, or the edge is the first one), {2,e,e2} insertRightEdge(e, e2),
+// {3,e} deleteFromAEL(e), {4,e1,e2} swapPositionsInAEL(e1, e2). It returns the raw pointers afterwards:
+// c.actives and every edge's prevInAEL / nextInAEL as indices (-1 = nil). No list is ever walked.
+func VAelPtrOps(n int, ops [][]int) (head int, prev, next []int) {
+	c := newClipperBase()
+	edges := make([]*Active, n)
+	idx := map[*Active]int{}
+	for i := range edges {
+		edges[i] = &Active{windDx: 1}
+		idx[edges[i]] = i
+	}
+	for _, op := range ops {
+		switch op[0] {
+		case 0:
+			if c.actives == nil {
+				c.insertLeftEdge(edges[op[1]])
+			}
+		case 1:
+			if c.actives != nil && c.actives != edges[op[1]] {
+				edges[op[1]].curX = c.actives.curX - 1
+				c.insertLeftEdge(edges[op[1]])
+			}
+		case 2:
+			insertRightEdge(edges[op[1]], edges[op[2]])
+		case 3:
+			c.deleteFromAEL(edges[op[1]])
+		case 4:
+			c.swapPositionsInAEL(edges[op[1]], edges[op[2]])
+		}
+	}
+	ei := func(a *Active) int {
+		if a == nil {
+			return -1
+		}
+		return idx[a]
+	}
+	head = ei(c.actives)
+	for _, a := range edges {
+		prev = append(prev, ei(a.prevInAEL))
+		next = append(next, ei(a.nextInAEL))
+	}
+	return
+}
